@@ -1,0 +1,13 @@
+//go:build verif
+
+package martian
+
+// VerifPoint, when set, is called at named points of the proxy's own goroutines so that a
+// verification harness can park them there. It exists only under the "verif" build tag.
+var VerifPoint func(name string)
+
+func verifPoint(name string) {
+	if f := VerifPoint; f != nil {
+		f(name)
+	}
+}
